@@ -21,15 +21,15 @@ package mergedlocrib
 
 //@ contract newRouteContainer
 //@   props C29
-//@   ensures result != nil && verif_fresh(result) && result.route == route && len(result.sources) == 1 && result.sources[0] == source && spec_nodup(result)
+//@   ensures[C29] result != nil && verif_fresh(result) && result.route == route && len(result.sources) == 1 && result.sources[0] == source && spec_nodup(result)
 //@   modifies nothing
 
 //@ contract (*routeContainer).getSourceIndex
 //@   props C29
 //@   requires rc != nil
-//@   ensures result >= -1 && result < len(rc.sources)
-//@   ensures result >= 0 ==> rc.sources[result] == src
-//@   ensures result < 0 ==> !spec_hasSrc(rc, src)
+//@   ensures[C29] result >= -1 && result < len(rc.sources)
+//@   ensures[C29] result >= 0 ==> rc.sources[result] == src
+//@   ensures[C29] result < 0 ==> !spec_hasSrc(rc, src)
 //@   modifies nothing
 //@   loop 0 vars rangeindex int
 //@   loop 0 invariant forall(k, 0, rangeindex+1, rc.sources[k] != src)
@@ -40,8 +40,8 @@ package mergedlocrib
 //@   requires rc != nil && spec_nodup(rc)
 //@   logical x interface{}
 //@   old had bool = spec_hasSrc(rc, x)
-//@   ensures spec_nodup(rc)
-//@   ensures spec_hasSrc(rc, x) == (had || x == src)
+//@   ensures[C29] spec_nodup(rc)
+//@   ensures[C29] spec_hasSrc(rc, x) == (had || x == src)
 //@   modifies rc, verif_arrayof(rc.sources)
 
 // Removing a source removes exactly it.
@@ -50,14 +50,14 @@ package mergedlocrib
 //@   requires rc != nil && spec_nodup(rc)
 //@   logical x interface{}
 //@   old had bool = spec_hasSrc(rc, x)
-//@   ensures spec_nodup(rc)
-//@   ensures spec_hasSrc(rc, x) == (had && x != src)
+//@   ensures[C29] spec_nodup(rc)
+//@   ensures[C29] spec_hasSrc(rc, x) == (had && x != src)
 //@   modifies rc, verif_arrayof(rc.sources)
 
 //@ contract (*routeContainer).srcCount
 //@   props C29
 //@   requires rc != nil
-//@   ensures result == len(rc.sources)
+//@   ensures[C29] result == len(rc.sources)
 //@   modifies nothing
 
 // The merged table, key by key: the container stored under a key has at least
@@ -85,12 +85,12 @@ package mergedlocrib
 
 //@ contract New
 //@   props C29
-//@   ensures result != nil && result.routes != nil && len(result.routes) == 0 && result.locRIB == locRIB
+//@   ensures[C29] result != nil && result.routes != nil && len(result.routes) == 0 && result.locRIB == locRIB
 
 //@ contract hashRoute
 //@   props C29
 //@   trusted protobuf marshalling and SHA-1 are not modelled: the hash is an uninterpreted function of the route object
-//@   ensures result1 == nil ==> result0 == spec_h(route)
+//@   ensures[C29] result1 == nil ==> result0 == spec_h(route)
 //@   modifies nothing
 
 // Removing a source from the route under key h: the key goes exactly when no
@@ -105,11 +105,11 @@ package mergedlocrib
 //@   old hadx bool = spec_hasSrc(rtm.routes[h], x)
 //@   old hadg bool = spec_hasKey(rtm, g)
 //@   old rcg *routeContainer = rtm.routes[g]
-//@   ensures spec_okKey(rtm, h)
-//@   ensures g != h ==> spec_hasKey(rtm, g) == hadg && rtm.routes[g] == rcg
-//@   ensures spec_hasKey(rtm, h) ==> spec_hasSrc(rtm.routes[h], x) == (hadx && x != src)
-//@   ensures !spec_hasKey(rtm, h) ==> !(hadx && x != src)
-//@   call LocRIB.RemovePath requires len(rtm.routes[h].sources) == 0
+//@   ensures[C29] spec_okKey(rtm, h)
+//@   ensures[C29] g != h ==> spec_hasKey(rtm, g) == hadg && rtm.routes[g] == rcg
+//@   ensures[C29] spec_hasKey(rtm, h) ==> spec_hasSrc(rtm.routes[h], x) == (hadx && x != src)
+//@   ensures[C29] !spec_hasKey(rtm, h) ==> !(hadx && x != src)
+//@   call[C29] LocRIB.RemovePath requires len(rtm.routes[h].sources) == 0
 
 // Advertising: afterwards the route is stored with cc among its sources; the
 // Loc-RIB is told only when the route was not stored before.
@@ -123,10 +123,10 @@ package mergedlocrib
 //@   old hadx bool = spec_hasKey(rtm, spec_h(r)) && spec_hasSrc(rtm.routes[spec_h(r)], x)
 //@   old hadg bool = spec_hasKey(rtm, g)
 //@   old rcg *routeContainer = rtm.routes[g]
-//@   ensures spec_okKey(rtm, spec_h(r))
-//@   ensures result == nil ==> spec_hasKey(rtm, spec_h(r)) && spec_hasSrc(rtm.routes[spec_h(r)], x) == (hadx || x == cc)
-//@   ensures result != nil || g != spec_h(r) ==> spec_hasKey(rtm, g) == hadg && rtm.routes[g] == rcg
-//@   call LocRIB.AddPath requires !hadKey
+//@   ensures[C29] spec_okKey(rtm, spec_h(r))
+//@   ensures[C29] result == nil ==> spec_hasKey(rtm, spec_h(r)) && spec_hasSrc(rtm.routes[spec_h(r)], x) == (hadx || x == cc)
+//@   ensures[C29] result != nil || g != spec_h(r) ==> spec_hasKey(rtm, g) == hadg && rtm.routes[g] == rcg
+//@   call[C29] LocRIB.AddPath requires !hadKey
 
 // Withdrawing: cc is no longer a source of the route; the route stays exactly
 // when another source remains.
@@ -139,7 +139,33 @@ package mergedlocrib
 //@   old hadx bool = spec_hasKey(rtm, spec_h(r)) && spec_hasSrc(rtm.routes[spec_h(r)], x)
 //@   old hadg bool = spec_hasKey(rtm, g)
 //@   old rcg *routeContainer = rtm.routes[g]
-//@   ensures spec_okKey(rtm, spec_h(r))
-//@   ensures result == nil && spec_hasKey(rtm, spec_h(r)) ==> spec_hasSrc(rtm.routes[spec_h(r)], x) == (hadx && x != cc)
-//@   ensures result == nil && !spec_hasKey(rtm, spec_h(r)) ==> !(hadx && x != cc)
-//@   ensures result != nil || g != spec_h(r) ==> spec_hasKey(rtm, g) == hadg && rtm.routes[g] == rcg
+//@   ensures[C29] spec_okKey(rtm, spec_h(r))
+//@   ensures[C29] result == nil && spec_hasKey(rtm, spec_h(r)) ==> spec_hasSrc(rtm.routes[spec_h(r)], x) == (hadx && x != cc)
+//@   ensures[C29] result == nil && !spec_hasKey(rtm, spec_h(r)) ==> !(hadx && x != cc)
+//@   ensures[C29] result != nil || g != spec_h(r) ==> spec_hasKey(rtm, g) == hadg && rtm.routes[g] == rcg
+
+// Properties C25 / C26 (see routingtable/zz_contracts_verif.go for what is
+// decided): the merged table's lock is taken before the Loc-RIB's (routes are
+// handed to the Loc-RIB with it held); its route map is touched only under it.
+//@ locklevel MergedLocRIB.routesMu 8
+//@ guarded MergedLocRIB.routes by routesMu
+//@ contract (*MergedLocRIB).DropAllBySrc, (*MergedLocRIB).AddRoute, (*MergedLocRIB).RemoveRoute, (*MergedLocRIB).Metrics
+//@   props C25 C26
+//@   nosafety
+//@   acquires 8
+//@   locks C25
+//@   guards C26
+//@ contract (*MergedLocRIB)._delRoute
+//@   props C25 C26
+//@   nosafety
+//@   requires verif_wheld(&rtm.routesMu)
+//@   acquires 9
+//@   locks C25
+//@   guards C26
+//@ contract (*MergedLocRIB)._getRoutesWithSingleSourceCount
+//@   props C25 C26
+//@   nosafety
+//@   requires verif_held(&rtm.routesMu)
+//@   acquires 9
+//@   locks C25
+//@   guards C26
